@@ -75,6 +75,14 @@ Theorem C11_retry_policy : forall i, NoDup (g_order i) ->
 Proof. exact (fun i Hnd => sp_retry _ _ (model_meets_spec i Hnd)). Qed.
 Print Assumptions C11_retry_policy.
 
+(* The round recorded in a step is the attempt number of its service (how many answers it had given before):
+   the oracle "service -> round -> answer" is therefore the same as a per-service script indexed by attempt,
+   which is what the harness's fake services use. *)
+Theorem C11_round_is_attempt : forall i, NoDup (g_order i) ->
+  forall pre s post, r_steps (run_g i) = pre ++ s :: post -> st_round s = List.length (hist (st_done s) pre).
+Proof. exact round_is_attempt. Qed.
+Print Assumptions C11_round_is_attempt.
+
 (* Liveness: if at least want writable services answer 200 with >= 1 replica on every attempt, Put succeeds,
    whatever the other services answer and in whatever order uploads complete. *)
 Theorem C11_put_succeeds_if_enough_accept : forall i, NoDup (g_order i) -> oversize i = false ->
